@@ -376,6 +376,12 @@ class SymInt(_SymNum):
 class SymReal(_SymNum):
     __slots__ = ()
 
+    def __floordiv__(self, o):
+        return self._bin(o, lambda a, b: z3.ToReal(z3.ToInt(_real(a) / _real(b))))
+
+    def __rfloordiv__(self, o):
+        return self._bin(o, lambda a, b: z3.ToReal(z3.ToInt(_real(a) / _real(b))), True)
+
     def __hash__(self):
         s = z3.simplify(self.t)
         if z3.is_rational_value(s):
